@@ -7,12 +7,16 @@ import copy
 def base_diagram():
     A = lambda n, k, ty='': {'n': n, 'k': k, 'ty': ty}
     return {
-        'comps': ['C1', 'C2'],
+        # (C3 is nested in C1: what C1 contains includes what C3 holds)
+        'comps': ['C1', 'C2', 'C3'], 'nest': [['C3', 'C1']],
         'enums': [{'n': 'Color', 'items': ['RED', 'GREEN', 'BLUE'], 'comp': 'C1'},
-                  {'n': 'Global_Enum', 'items': ['ON', 'OFF'], 'comp': ''}],
+                  {'n': 'Global_Enum', 'items': ['ON', 'OFF'], 'comp': ''}, {'n': 'Inner_Enum', 'items': ['IN', 'OUT'], 'comp': 'C3'}],
         'udts': [{'n': 'MyInt', 'base': 'integer', 'comp': 'C1'}, {'n': 'MyInt2', 'base': 'MyInt', 'comp': 'C1'},
-                 {'n': 'Shade', 'base': 'Color', 'comp': ''}, {'n': 'Other_Real', 'base': 'real', 'comp': 'C2'}],
+                 {'n': 'Shade', 'base': 'Color', 'comp': ''}, {'n': 'Other_Real', 'base': 'real', 'comp': 'C2'},
+                 {'n': 'Inner_Count', 'base': 'integer', 'comp': 'C3'}],
         'classes': [
+            {'kl': 'N', 'name': 'Nested', 'comp': 'C3', 'attrs': [A('Id', 'base', 'unique_id'), A('Cnt', 'base', 'Inner_Count'),
+                                                                 A('Dir', 'base', 'Inner_Enum')], 'ids': [['Id']]},
             {'kl': 'A', 'name': 'Alpha', 'comp': 'C1',
              'attrs': [A('Id', 'base', 'unique_id'), A('Name', 'base', 'string'), A('Count', 'base', 'MyInt2'),
                        A('Col', 'base', 'Color'), A('Calc', 'derived', 'integer'), A('Handle', 'base', 'inst_ref<Object>'),
@@ -36,8 +40,9 @@ def base_diagram():
             {'kl': 'Z', 'name': 'Zed', 'comp': 'C1', 'attrs': [A('D', 'derived', 'integer'), A('H', 'base', 'inst_ref<Object>')],
              'ids': []},
             {'kl': 'E', 'name': 'Empty', 'comp': 'C2', 'attrs': [], 'ids': []},
-            # a two-attribute key whose referential names sort differently from the identifying names they refer to
-            {'kl': 'W', 'name': 'Owner', 'comp': 'C1', 'attrs': [A('Name', 'base', 'string'), A('Kind', 'base', 'integer')],
+            # a two-attribute key whose referential names sort differently from the identifying names they refer to; one of
+            # the identifying attributes is typed by a user type over a user type
+            {'kl': 'W', 'name': 'Owner', 'comp': 'C1', 'attrs': [A('Name', 'base', 'string'), A('Kind', 'base', 'MyInt2')],
              'ids': [['Name', 'Kind']]},
             {'kl': 'I', 'name': 'Item', 'comp': 'C1', 'attrs': [A('Id', 'base', 'unique_id'), A('Holder', 'ref'), A('Variety', 'ref')],
              'ids': [['Id']]},
@@ -67,7 +72,7 @@ def base_diagram():
 def reflexive_linked():
     A = lambda n, k, ty='': {'n': n, 'k': k, 'ty': ty}
     return {
-        'comps': ['C1'], 'enums': [], 'udts': [],
+        'comps': ['C1'], 'nest': [], 'enums': [], 'udts': [],
         'classes': [{'kl': 'N', 'name': 'Node', 'comp': 'C1', 'attrs': [A('Id', 'base', 'unique_id'), A('K2', 'base', 'string')],
                      'ids': [['Id'], ['Id', 'K2']]},
                     {'kl': 'E', 'name': 'Edge', 'comp': 'C1', 'attrs': [A('From_Id', 'ref'), A('To_Id', 'ref'), A('To_K2', 'ref')],
@@ -91,9 +96,25 @@ def edit(d, rnd, derived_keys=False):
     d = copy.deepcopy(d)
     kind = rnd.choice(['rename_attr', 'retype_attr', 'reorder_attrs', 'add_attr', 'toggle', 'toggle', 'phrase', 'move_class',
                        'add_enumerator', 'reorder_enumerators', 'add_udt', 'retype_udt', 'to_derived', 'swap_form_part',
-                       'rename_class', 'drop_id', 'add_id', 'add_twin_types'])
+                       'rename_class', 'drop_id', 'add_id', 'add_twin_types', 'renest'])
     # (types that share their name with another type are never referred to by name)
     plain = lambda us: [u['n'] for u in us if not u['n'].startswith('Twin')]
+    if kind == 'renest':
+        # a component is taken out of the component it is nested in, or put into another one (never into itself or below)
+        if len(d['comps']) < 2:
+            return None, kind
+        nest = {c: p for c, p in d.get('nest', [])}
+        c = rnd.choice(d['comps'])
+
+        def below(x, top, fuel=8):
+            return x == top or (fuel and x in nest and below(nest[x], top, fuel - 1))
+        options = [None] + [p for p in d['comps'] if not below(p, c)]
+        p = rnd.choice([o for o in options if o != nest.get(c)] or [None])
+        nest.pop(c, None)
+        if p:
+            nest[c] = p
+        d['nest'] = sorted([k, v] for k, v in nest.items())
+        return d, kind
     if kind == 'add_twin_types':
         # an enumeration and a user-defined type with one name, in any two places: both are declared
         n = 'Twin%d' % sum(1 for u in d['enums'] if u['n'].startswith('Twin'))
@@ -127,8 +148,14 @@ def edit(d, rnd, derived_keys=False):
         types = ['boolean', 'integer', 'real', 'string', 'unique_id', 'void', 'inst_ref<Object>'] + \
             plain(d['udts']) + plain(d['enums'])
         if _is_referred(d, d['classes'][ci]['kl'], d['classes'][ci]['attrs'][ai]['n']):
-            # an attribute that relationships refer to keeps a supported type (a key without a type has no meaning)
-            types = ['integer', 'string', 'unique_id', 'real']
+            # an attribute that relationships refer to keeps a supported type (a key without a type has no meaning): a core
+            # type, or a user type over one (directly or through further user types)
+            def core_base(ty, fuel=8):
+                u = [x for x in d['udts'] if x['n'] == ty]
+                if not u:
+                    return ty if ty in ('integer', 'string', 'unique_id', 'real') else None
+                return core_base(u[0]['base'], fuel - 1) if fuel else None
+            types = ['integer', 'string', 'unique_id', 'real'] + [n for n in plain(d['udts']) if core_base(n)] * 2
         d['classes'][ci]['attrs'][ai]['ty'] = rnd.choice(types)
         return d, kind
     if kind == 'reorder_attrs':
@@ -185,7 +212,10 @@ def edit(d, rnd, derived_keys=False):
         if not d['enums']:
             return None, kind
         u = rnd.choice(d['enums'])
-        u['items'].insert(rnd.randint(0, len(u['items'])), 'E%d' % len(u['items']))
+        k = len(u['items'])
+        while 'E%d' % k in u['items']:
+            k += 1
+        u['items'].insert(rnd.randint(0, len(u['items'])), 'E%d' % k)
         return d, kind
     if kind == 'reorder_enumerators':
         us = [u for u in d['enums'] if len(u['items']) > 1]
@@ -204,10 +234,14 @@ def edit(d, rnd, derived_keys=False):
             return None, kind
         k = rnd.randrange(len(d['udts']))
         earlier = ['boolean', 'integer', 'real', 'string', 'void'] + plain(d['udts'][:k]) + plain(d['enums'])
-        used_by_keys = any(a['ty'] == d['udts'][k]['n'] and _is_referred(d, c['kl'], a['n'])
-                           for c in d['classes'] for a in c['attrs'])
-        if used_by_keys:
-            earlier = [x for x in earlier if x != 'void']
+        # (user types that the type of a referred key passes through stay over a core type)
+        def chain(ty, fuel=8):
+            u = [x for x in d['udts'] if x['n'] == ty]
+            return [ty] + (chain(u[0]['base'], fuel - 1) if u and fuel else [])
+        key_types = set(t for c in d['classes'] for a in c['attrs'] if _is_referred(d, c['kl'], a['n']) for t in chain(a['ty']))
+        if d['udts'][k]['n'] in key_types:
+            earlier = ['integer', 'real', 'string'] + [n for n in plain(d['udts'][:k])
+                                                       if chain(n)[-1] in ('integer', 'real', 'string', 'unique_id')]
         d['udts'][k]['base'] = rnd.choice(earlier)
         return d, kind
     if kind == 'to_derived':
